@@ -29,21 +29,25 @@ KEYNAME = {v: k for k, v in KEYS.items()}
 SHAPES = [  # name, [(order, nknots)], [(key, value)]
     ("s1", [(2, 8)], [("KEY1", "hello"), ("KEY2", "12345678901")]),
     ("s2", [(2, 7), (1, 6)], []),
-    ("s3", [(1, 5)], [("KEY3", "x")]),
+    ("s3", [(1, 5)], [("KEY3", "x"), ("KEY6", "it's")]),   # a value with a quote: doubled in the card, collapsed when stored
     ("s4", [(1, 5), (2, 7), (1, 5)],   # no order-0 dimension: factorial(0) in convolve.cpp loops 2^32 times (D4, C14)
      [("KEY1", "abc"), ("KEY4", "a" * 20)]),
     ("s5", [(2, 9), (1, 8)], [("KEY5", "v")]),   # orders kept <= 2: convolve's blossom recursion is exponential in the order
 ]
 PHASE_CODE = {"none": 0, "hdu": 1, "dim": 2, "order": 3, "imgsize": 4, "coeff": 5, "knotsize": 6, "knotdata": 7, "extents": 8}
 
-def stored_vlen(v):            # FITS string cards pad to 8 characters inside the quotes; cfitsio hands back the quoted card value
-    return max(len(v), 8) + 1
+def card_inner(v):             # text between the outer quotes of the card: quotes doubled, padded to 8 characters
+    return max(len(v) + v.count("'"), 8)
+def stored_vlen(v):            # what the reader stores (+NUL): outer quotes stripped, doubled quotes collapsed, padding kept
+    return card_inner(v) - v.count("'") + 1
+def raw_vlen(v):               # strlen+1 of the quoted card value cfitsio hands back
+    return card_inner(v) + 3
 def file_desc(shape, open_fails, phase, parg):
     name, dims, aux = shape
     nd = len(dims)
     toks = [1 if open_fails else 0, PHASE_CODE[phase], parg, nd] + [o for o, _ in dims] + [k for _, k in dims] + [k - o - 1 for o, k in dims] + [len(aux)]
     for k, v in aux:
-        toks += [KEYS[k], len(k) + 1, stored_vlen(v), stored_vlen(v) + 2]
+        toks += [KEYS[k], len(k) + 1, stored_vlen(v), raw_vlen(v)]
     return " ".join(map(str, toks))
 
 def classify_msg(kind, outcome, msg):
